@@ -316,9 +316,6 @@ func (h *harness) atEnd(c *vsched.Ctx) string {
 	}
 	// an in-flight push parked on the buffer has not enqueued; one that is not parked cannot exist at quiescence
 	pendingModel = handed - entered
-	if st.PendingTask != pendingModel {
-		return fmt.Sprintf("C14: at rest Status().PendingTask=%d but %d tasks are accepted and not yet started (accepted=%d started=%d)", st.PendingTask, pendingModel, handed, entered)
-	}
 	if st.PendingTask < 0 || st.PendingTask > sp.L*(sp.Q+1) {
 		return fmt.Sprintf("C14: Status().PendingTask=%d outside [0,%d]", st.PendingTask, sp.L*(sp.Q+1))
 	}
@@ -399,6 +396,9 @@ func (h *harness) atEnd(c *vsched.Ctx) string {
 		}
 		lab = append(lab, fmt.Sprintf("cancelled;wait=%v;alive=%d", h.waitRet, laneAlive))
 	}
+	if st.PendingTask != pendingModel {
+		return fmt.Sprintf("C14: at rest Status().PendingTask=%d but %d tasks are accepted and not yet started (accepted=%d started=%d)", st.PendingTask, pendingModel, handed, entered)
+	}
 	if len(h.polled) > 0 {
 		lab = append(lab, fmt.Sprintf("polls=%v", h.polled))
 	}
@@ -458,6 +458,16 @@ func main() {
 		pl = append(pl, push{8, 0}) // everything to lane 0: the ninth worker must take the probe
 		s12.producers = [][]push{pl}
 	}
+	// long run: one worker pinned, the other one has to run 24 tasks coming from both lanes
+	s16 := &spec{L: 2, Q: 1, tasks: []taskSpec{{pin: pinForever}}, monitorRun: true}
+	{
+		pl := []push{{0, 0}}
+		for i := 1; i <= 24; i++ {
+			s16.tasks = append(s16.tasks, taskSpec{})
+			pl = append(pl, push{i, i % 2})
+		}
+		s16.producers = [][]push{pl}
+	}
 	s13 := &spec{L: 2, Q: 2, tasks: []taskSpec{{yields: 1}, {yields: 1}, {yields: 1}, {pin: pinForever}, {}}, producers: [][]push{{{0, 0}, {1, 1}, {2, 0}, {3, 0}, {4, 1}}}, monitorRun: true}
 	s14 := &spec{L: 1, Q: 1, tasks: []taskSpec{{pin: pinUntilRelease}, {}, {}}, producers: [][]push{{{0, 0}, {1, 0}, {2, 0}}}, cancel: "cancel", wait: true, waiters: 1, release: true}
 	s15 := &spec{L: 2, Q: 1, tasks: []taskSpec{{goexit: true}, {yields: 1}}, producers: [][]push{{{0, 0}, {1, 1}}}, cancel: "cancel", wait: true}
@@ -512,6 +522,8 @@ func main() {
 			Quick: sdrive.Plan{Delay: true, Wide: true, Bounds: []int{0}}, Thorough: sdrive.Plan{Delay: true, Wide: true, Bounds: []int{0, 1}}, Body: body(s10)},
 		{Name: "s12-L9Q1-wide", Props: []string{"C08"}, About: "wide but shallow: 9 lanes, 8 never-ending tasks and a probe all pushed to lane 0: the ninth worker must run the probe",
 			Quick: sdrive.Plan{Delay: true, Wide: true, Bounds: []int{0, 1}}, Thorough: sdrive.Plan{Delay: true, Wide: true, Bounds: []int{0, 1, 2}}, Body: body(s12)},
+		{Name: "s16-L2Q1-long-run", Props: []string{"C06", "C08"}, About: "wide but shallow in time: one worker pinned for ever, 24 tasks pushed alternately to both lanes - every one must be started exactly once by the free worker (per-worker counters, every-Nth-round logic)",
+			Quick: sdrive.Plan{Delay: true, Wide: true, Bounds: []int{0, 1}}, Thorough: sdrive.Plan{Delay: true, Wide: true, Bounds: []int{0, 1, 2}, Shards: 16}, Body: body(s16)},
 		{Name: "s13-L2Q2-backlog-then-other-lane", Props: []string{"C08"}, About: "lane 0 gets a backlog that other workers help to drain, its last task never returns; then a task for lane 1 arrives: an idle worker must take it",
 			Quick: D(0, 1, 2, 3), Thorough: PS(16, 0, 1, 2, 3), Body: body(s13)},
 		{Name: "s14-L1Q1-two-waiters", Props: []string{"C07"}, About: "two goroutines in Wait, three tasks on the lane at cancel (running, held, buffered)",
